@@ -212,6 +212,12 @@ JudgeLabwareOp(tr, T, ev) ==
                                /\ pips[i].tiptype = ""),
     Cl("C09.kwreject", viaWl /\ ~KwValid(a.kw) /\ (\E i \in 1..Len(P.vs) : P.vs[i] > 0) /\ T.dev # "base",
        ev.out # "ok" /\ ev.recs = <<>>),
+    \* C10 through aspirate / dispense: a tip collection is ONE selection, every record of the call carries its OR;
+    \* an invalid tip argument is rejected
+    Cl("C10.recmask", viaWl /\ F.records /\ ev.out = "ok" /\ TipArgValid(a.kw.tip),
+       \A i \in 1..Len(pips) : pips[i].tip = TipArgMask(a.kw.tip)),
+    Cl("C10.recreject", viaWl /\ ~TipArgValid(a.kw.tip) /\ (\E i \in 1..Len(P.vs) : P.vs[i] > 0) /\ T.dev # "base",
+       ev.out # "ok" /\ PipRecs(ev.recs) = <<>>),
     Cl("C09.comment", viaWl /\ F.records /\ ev.out = "ok" /\ a.labelok,
        CommentTexts(ev.recs) = CommentRecords(a.label.lines) /\ (\A i \in 1..Len(ev.recs) : ev.recs[i].t \in {"C", tag})),
     Cl("C03.oversized", viaWl /\ valid /\ rout = "ok" /\ ~fits /\ T.dev # "base", ev.out = "invalidop"),
@@ -268,6 +274,9 @@ JudgeTransfer(tr, T, ev) ==
        \A i \in 1..Len(pips) : /\ pips[i].lc = kv.lc /\ pips[i].tip = kv.tip /\ pips[i].rackid = kv.rackid
                                /\ pips[i].racktype = kv.racktype /\ pips[i].tube = kv.tube /\ pips[i].frt = kv.frt),
     Cl("C09.kwreject", T.dev # "base" /\ TransferValid(T, a) /\ ~KwValid(a.kw) /\ Moved(x), ~ok /\ PipRecs(ev.recs) = <<>>),
+    Cl("C10.recmask", F.records /\ valid /\ ok,
+       LET pips == PipRecs(ev.recs) IN \A i \in 1..Len(pips) : pips[i].tip = TipArgMask(a.kw.tip)),
+    Cl("C10.recreject", T.dev # "base" /\ TransferValid(T, a) /\ ~TipArgValid(a.kw.tip) /\ Moved(x), ~ok /\ PipRecs(ev.recs) = <<>>),
     Cl("C09.comment", F.records /\ valid /\ ok, CommentTexts(ev.recs) = (IF a.label.h THEN CommentRecords(a.label.lines) ELSE <<>>)),
     Cl("C01.robot", F.robot /\ live /\ valid /\ ok, rb.err = "" /\ rb.vol = post.vol),
     Cl("C01.failrobot", F.robot /\ live /\ valid /\ ev.out \in {"overflow", "underflow"}, rb.err = "" /\ rb.vol = post.vol),
